@@ -397,9 +397,9 @@ func generateBig(w *bufio.Writer, r *rand.Rand) {
 	arrays := map[int]bool{3: true, 30: true} // Metadata, CreateAcls (flexible in its last versions)
 	blobs := map[int]bool{14: true}                     // SyncGroup (compact bytes from v4)
 	if gen.Thorough() {
-		counts = append(counts, 1024, 1025, 2048, 2049, 3000, 5000)
-		sizes = append(sizes, 65536, 131072, 131073, 200001, 1000001)
-		arrays[16], arrays[18], arrays[42], blobs[36] = true, true, true, true // ListGroups, ApiVersions, DeleteGroups, SaslAuthenticate
+		counts = append(counts, 1024, 1025, 2048, 2049, 3000)
+		sizes = append(sizes, 65536, 131073, 200001)
+		arrays[42], blobs[36] = true, true // DeleteGroups, SaslAuthenticate
 	}
 	for i, m := range msgs.All {
 		if m.Override || !(arrays[m.ApiKey] || blobs[m.ApiKey]) {
